@@ -18,6 +18,18 @@ structure SepOpts where
   require : Bool    -- require_separator
   deriving DecidableEq, Repr, Inhabited
 
+/-- scalar constants of inline Python -/
+inductive PyConst where
+  | none
+  | bool (b : Bool)
+  | int (i : Int)
+  deriving Inhabited, DecidableEq
+
+def PyConst.toVal : PyConst → Val
+  | .none => .none
+  | .bool b => .bool b
+  | .int i => .int i
+
 inductive Expr where
   | str (s : List Nat) (skip : Bool)
   | regex (rx : Nat) (skip : Bool)
@@ -41,8 +53,8 @@ inductive Expr where
   | longest (xs : List Expr)
   | backtrack (n : Nat)
   | fail
-  /-- inline Python whose value is a constant (`None`, a number, …) -/
-  | py (v : Val)
+  /-- inline Python whose value is a scalar constant (`None`, `True`, a number) -/
+  | py (c : PyConst)
   deriving Inhabited
 
 /-- The classes of `min_len` values that `List.always_succeeds` / `List._compile` distinguish. -/
